@@ -62,6 +62,17 @@ var (
 func (t *UnverifiedMacaroon) String() string { return t.Str }
 func (t *UnverifiedMacaroon) isToken()       {}
 
+// copy returns a new token object for the same token. The macaroon itself is
+// never modified in place (Attenuate installs a clone), so it can be shared.
+func (t *UnverifiedMacaroon) copy() *UnverifiedMacaroon {
+	if t == nil {
+		return nil
+	}
+
+	cp := *t
+	return &cp
+}
+
 // implement Macaroon
 func (t *UnverifiedMacaroon) Unverified() *UnverifiedMacaroon    { return t }
 func (t *UnverifiedMacaroon) UnsafeMacaroon() *macaroon.Macaroon { return t.UnsafeMac }
